@@ -321,7 +321,9 @@ def check(pid, tier='quick', base_seed=0, workers=None, runs=None,
                       f'detail={json.dumps(sviol.get("detail"), default=str)[:600]}',
                       file=out)
     finally:
-        pool.shutdown(wait=False, cancel_futures=True)
+        # wait for the (short) chunks still running so that the interpreter
+        # does not tear the pool down underneath its management thread
+        pool.shutdown(wait=True, cancel_futures=True)
 
     for key, ent in sorted(known_hits.items()):
         print(f'KNOWN-FINDING: property={pid} {ent["finding"]["what"]} '
